@@ -5,3 +5,6 @@ namespace sub { class Inner { Inner(double x); }; }
 double free_fn(const gt::Main& m);
 }
 class Glob { Glob(); };
+namespace gt {
+template<A = {int}, B = {double}> class Pair2 { Pair2(); void serialize() const; };
+}
